@@ -1,7 +1,192 @@
-/- line-protocol handler for model "kv" (stub until its model is built) -/
+/- line-protocol handler for model "kv" (keyvalue.c / burl_append / mod_rewrite / mod_redirect /
+   mod_alias / mod_simple_vhost / mod_evhost).  Protocol: see harness/inproc/h_keyvalue.c -/
+import LtVerif.Model.KeyValue
 namespace Driver
+open LtVerif LtVerif.B
+
+namespace KV
+
+def hexOpt (s : String) : Option (Option Bytes) :=
+  if s = "~" then some none else (ofHex s).map some
+
+def parsePair (s : String) : Option (Option (Nat × Nat)) :=
+  if s = "u" then some none else
+  match s.splitOn "." with
+  | [a, b] => match a.toNat?, b.toNat? with
+    | some x, some y => some (some (x, y))
+    | _, _ => none
+  | _ => none
+
+def parseOVec (s : String) : Option OVec :=
+  if s = "-" then some [] else (s.splitOn ",").mapM parsePair
+
+/-- `<subject-hex>@<ovec>` -/
+def parseCaps (s : String) : Option Caps :=
+  match s.splitOn "@" with
+  | [h, o] => match ofHex h, parseOVec o with
+    | some subj, some ov => some { subject := subj, ovec := ov }
+    | _, _ => none
+  | _ => none
+
+def parseCond (s : String) : Option (Option Caps) :=
+  if s = "~" then some none else (parseCaps s).map some
+
+/-- `<scheme>,<authority>,<port>,<path>,<query>` -/
+def parseUrl (s : String) : Option UrlParts :=
+  match s.splitOn "," with
+  | [sc, au, po, pa, qu] =>
+    match hexOpt sc, hexOpt au, po.toNat?, ofHex pa, hexOpt qu with
+    | some sc, some au, some po, some pa, some qu =>
+      some { scheme := sc, authority := au, port := po, path := pa, query := qu }
+    | _, _, _, _, _ => none
+  | _ => none
+
+/-- `<pat>:<tmpl>;...` -> templates ("-" alone = no rules) -/
+def parseRules (s : String) : Option (List Bytes) :=
+  if s = "." then some [] else
+  (s.splitOn ";").mapM fun kv =>
+    match kv.splitOn ":" with
+    | [_, t] => ofHex t
+    | _ => none
+
+def parseRes (s : String) : Option MatchRes :=
+  if s = "N" then some .nomatch
+  else if s = "E" then some .error
+  else (parseOVec s).map .matched
+
+def parseTrace (s : String) : Option (List MatchRes) :=
+  if s = "." then some [] else (s.splitOn "/").mapM parseRes
+
+def parseTable (s : String) : Option (List (Bytes × List MatchRes)) :=
+  if s = "." then some [] else
+  (s.splitOn "|").mapM fun e =>
+    match e.splitOn "=" with
+    | [t, tr] => match ofHex t, parseTrace tr with
+      | some t, some tr => some (t, tr)
+      | _, _ => none
+    | _ => none
+
+def parsePairs (s : String) : Option (List (Bytes × Bytes)) :=
+  if s = "." then some [] else
+  (s.splitOn ";").mapM fun kv =>
+    match kv.splitOn ":" with
+    | [k, v] => match ofHex k, ofHex v with
+      | some k, some v => some (k, v)
+      | _, _ => none
+    | _ => none
+
+def showProc : ProcRes → String
+  | .goOn none => "go -"
+  | .goOn (some m) => s!"go {m}"
+  | .error => "err"
+  | .finished m r => s!"fin {m} {toHex r}"
+
+def showWhy : RwRes → String
+  | .loopError => "loop"
+  | .invalidResult => "invalid"
+  | .pcreError => "pcre"
+  | .goOn => "goon"
+  | .comeback _ => "comeback"
+
+def showFinal : RwFinal → String
+  | .served t n => s!"served {toHex t} {n}"
+  | .status c n => s!"status {c} {n}"
+  | .failed _ n => s!"failed {n}"
+  | .outOfFuel => "out-of-fuel"
+
+def orBad (o : Option String) : String := o.getD "bad-op"
+
+end KV
+open KV
 
 def kvLine : List String → String
+  | ["app", fl, s, look] => orBad do
+    let f ← fl.toNat?
+    let s ← ofHex s
+    let l ← ofHex look
+    pure (toHex (burlAppend f s l))
+  | ["nkey", h] => orBad do pure (toHex (normalizeKey (← ofHex h)))
+  | ["nval", h] => orBad do pure (toHex (normalizeValue (← ofHex h)))
+  | ["subst", tmpl, caps, cond, url] => orBad do
+    let t ← ofHex tmpl
+    let c ← parseCaps caps
+    let cd ← parseCond cond
+    let u ← parseUrl url
+    pure (toHex (subst { rule := c, cond := cd, url := u } t))
+  | ["proc", rules, subj, cond, url, trace] => orBad do
+    let ts ← parseRules rules
+    let s ← ofHex subj
+    let cd ← parseCond cond
+    let u ← parseUrl url
+    let tr ← parseTrace trace
+    if tr.length ≠ ts.length then none
+    pure (showProc (process cd u s (ts.zip tr)))
+  | ["redir", code, goh, h10, rules, cond, url, trace] => orBad do
+    let code ← code.toNat?
+    let ts ← parseRules rules
+    let cd ← parseCond cond
+    let u ← parseUrl url
+    let tr ← parseTrace trace
+    if tr.length ≠ ts.length then none
+    pure (match redirect code (goh == "1") (h10 == "1") cd u (ts.zip tr) with
+          | .ok none => "none"
+          | .ok (some (st, loc)) => s!"{st} {toHex loc}"
+          | .error _ => "err")
+  | ["rw", ridx, rules, target, cond, scheme, auth, port, opts, table] => orBad do
+    let ridx ← ridx.toNat?
+    let ts ← parseRules rules
+    let t ← ofHex target
+    let cd ← parseCond cond
+    let sc ← hexOpt scheme
+    let au0 ← hexOpt auth
+    -- r->uri.authority is the lower-cased Host; if blank, ${url.authority} is r->server_name
+    let au : Option Bytes := some (match au0 with
+      | some a => if a.isEmpty then ofString "server.name" else a.map toLower
+      | none => ofString "server.name")
+    let po ← port.toNat?
+    let o ← opts.toNat?
+    let tbl ← parseTable table
+    -- the matcher is the recorded table (validated against PCRE2 by the harness);
+    -- a target outside the table yields a trace of the wrong length, detected below
+    let matcher : Bytes → List MatchRes := fun tg => ((tbl.find? (·.1 == tg)).map (·.2)).getD []
+    match parseTarget ⟨o⟩ false t with
+    | .error e => pure s!"status {e} 0"
+    | .ok tg =>
+      let r := rwRun matcher ts ridx cd ⟨o⟩ sc au po 200 tg.target none 0
+      -- detect trace misses: every target reached must be in the table
+      let rec reach (fuel : Nat) (tg : Bytes) (h : Option RwState) : Bool :=
+        match fuel with
+        | 0 => true
+        | fuel + 1 =>
+          if (tbl.find? (·.1 == tg)).isNone && !ts.isEmpty then false else
+          let url : UrlParts := { scheme := sc, authority := au, port := po, path := tg,
+                                  query := targetQuery tg }
+          match rwCall ridx cd url (ts.zip (matcher tg)) h with
+          | (.comeback t', h') =>
+            (match parseTarget ⟨o⟩ false t' with
+             | .ok tg' => reach fuel tg'.target h'
+             | .error _ => true)
+          | _ => true
+      if reach 200 tg.target none then pure (showFinal r) else pure "trace-miss"
+  | ["alias", nc, aliases, basedir, path] => orBad do
+    let al ← parsePairs aliases
+    let bd ← ofHex basedir
+    let p ← ofHex path
+    pure (match aliasRemap (nc == "1") al bd p with
+          | .unchanged => s!"{toHex p} {toHex bd}"
+          | .forbidden => "403"
+          | .remapped p' b' => s!"{toHex p'} {toHex b'}")
+  | ["svhost", sroot, host, droot] => orBad do
+    let sr ← ofHex sroot
+    let h ← hexOpt host
+    let d ← hexOpt droot
+    pure (toHex (simpleVhostRoot sr h d))
+  | ["evhost", pat, auth] => orBad do
+    let p ← ofHex pat
+    let a ← ofHex auth
+    pure (match evParsePattern p with
+          | none => "badpat"
+          | some pieces => toHex (evhostRoot pieces a))
   | _ => "bad-op"
 
 end Driver
